@@ -55,8 +55,9 @@ type World struct {
 	R       *ref.Rules
 	Desc    bool
 	Invalid map[int]map[string]bool // per node: block tags its consumer rejects
+	SloppyValidator bool // consumer validators accept a missing block (robustness runs of C12)
 	// Validate runs strict ValidateBlockConsensus on a different correct node (C03).
-	Validate func(block interfaces.Block, proof []byte) error
+	Validate func(block interfaces.Block, proof []byte, prevProof []byte) error
 	// Chain holds, per height, the (block, proof) pairs honest nodes committed so far (for sync events).
 }
 
@@ -80,6 +81,7 @@ type LNode struct {
 	Dead    string // non-empty after a panic
 	// CommitErr, if set, makes the commit callback fail (environment answer).
 	CommitErr bool
+	early     []earlyMsg      // messages delivered for a height above the current one (the code caches them)
 	Approved  map[string]bool // tags approved by this node's consumer validator
 	Requested map[string]bool
 	seed      uint64
@@ -89,7 +91,7 @@ func NewLNode(w *World, idx int) *LNode {
 	id := w.C[idx].ID
 	n := &LNode{W: w, Idx: idx, ID: id, Trig: &kit.FakeTrigger{}, Store: kit.NewStore(w.Desc), Comm: &kit.Comm{}, KM: &kit.KeyManager{Me: id},
 		Mem: &kit.Membership{Me: id, Committee: w.C}, Approved: map[string]bool{}, Requested: map[string]bool{}}
-	n.BU = &kit.BlockUtils{Me: id, Invalid: w.Invalid[idx]}
+	n.BU = &kit.BlockUtils{Me: id, Invalid: w.Invalid[idx], AcceptNil: w.SloppyValidator}
 	n.Sh = ref.NewShadow(w.R, string(id))
 	cfg := &interfaces.Config{InstanceId: kit.Instance, Communication: n.Comm, Membership: n.Mem, BlockUtils: n.BU, KeyManager: n.KM,
 		OverrideElectionTrigger: n.Trig, Storage: n.Store}
@@ -130,7 +132,7 @@ func (n *LNode) idxOf(ids []primitives.MemberId) []int {
 
 func (n *LNode) wouldApprove(raw *interfaces.ConsensusRawMessage, hash string) bool {
 	if raw == nil || raw.Block == nil {
-		return false
+		return raw != nil && n.BU.AcceptNil
 	}
 	return fmt.Sprintf("%x", []byte(kit.HashOf(raw.Block))) == hash && uint64(raw.Block.Height()) == n.Sh.Height && !n.BU.Invalid[kit.TagOf(raw.Block)]
 }
@@ -140,6 +142,9 @@ func (n *LNode) wouldApprove(raw *interfaces.ConsensusRawMessage, hash string) b
 func (n *LNode) Step(e Event, raw *interfaces.ConsensusRawMessage, info ref.Info, sync *SyncArg) (obs StepObs) {
 	if n.Dead != "" {
 		return
+	}
+	if t := n.V.Term(); t != nil {
+		n.seed = t.VerifRandomSeed()
 	}
 	preOuts, preCommits, preAll, preVals, preReqs := len(n.Comm.Outs), len(n.Blocks), len(n.Store.All), len(n.BU.Vals), len(n.BU.Reqs)
 	preView := uint64(n.V.S.View())
@@ -156,6 +161,9 @@ func (n *LNode) Step(e Event, raw *interfaces.ConsensusRawMessage, info ref.Info
 		hash := info.Hdr.Hash
 		if info.Kind == ref.KNV {
 			hash = info.PP.Hash
+		}
+		if !info.Bad && info.Hdr.Height > n.Sh.Height {
+			n.early = append(n.early, earlyMsg{raw, info})
 		}
 		n.Sh.OnDeliver(info, shareOK, n.wouldApprove(raw, hash))
 	}
@@ -203,6 +211,7 @@ func (n *LNode) Step(e Event, raw *interfaces.ConsensusRawMessage, info ref.Info
 	me := string(n.ID)
 	if e.Kind == 's' && height != sh.Height { // entering a height by sync: the shadow starts afresh
 		sh.Reset(height)
+		n.replayEarly(height)
 	}
 	for _, vc := range n.BU.Vals[preVals:] {
 		if vc.OK {
@@ -354,7 +363,11 @@ func (n *LNode) Step(e Event, raw *interfaces.ConsensusRawMessage, info ref.Info
 			bad("C04", "commit-without-leader-proposal", "committed #%s of view %d for which no PREPREPARE signed by %s was delivered", short(c.Hash), c.View, r.Leader(c.View))
 		}
 		if n.W.Validate != nil {
-			if err := n.W.Validate(b, p); err != nil {
+			var prevProof []byte
+			if k > 0 {
+				prevProof = n.Proofs[k-1]
+			}
+			if err := n.W.Validate(b, p, prevProof); err != nil {
 				bad("C03", "committed-pair-rejected", "committed (%s, proof v%d #%s signers %v) is rejected by strict ValidateBlockConsensus on a peer: %v", c.Tag, c.View, short(c.Hash), proofSigners(p), err)
 			}
 		}
@@ -371,6 +384,25 @@ func (n *LNode) Step(e Event, raw *interfaces.ConsensusRawMessage, info ref.Info
 	}
 	if height != sh.Height {
 		sh.Reset(height)
+		n.replayEarly(height)
+		// outputs of the new height emitted in this very step (after the commit) belong to the new shadow
+		for _, o := range obs.Outs {
+			oi := o.Info
+			if oi.Bad || oi.Sender.ID != me || oi.Hdr.Height != height {
+				continue
+			}
+			switch oi.Kind {
+			case ref.KPP:
+				sh.OwnProp[oi.Hdr.View] = oi.Hdr.Hash
+				sh.Accepted[oi.Hdr.View], sh.AccTag[oi.Hdr.View] = oi.Hdr.Hash, oi.BlockTag
+			case ref.KP:
+				sh.OwnPrep[oi.Hdr.View] = oi.Hdr.Hash
+				sh.Accepted[oi.Hdr.View], sh.AccTag[oi.Hdr.View] = oi.Hdr.Hash, sh.Props[oi.Hdr.View][oi.Hdr.Hash]
+				sh.Recheck(oi.Hdr.View)
+			case ref.KC:
+				sh.OwnCommit[oi.Hdr.View] = oi.Hdr.Hash
+			}
+		}
 	}
 	sh.View = view
 	if view > sh.MaxOut {
@@ -560,4 +592,32 @@ func (n *LNode) mayInfluence(i ref.Info, height, view uint64) (bool, string) {
 		}
 	}
 	return true, ""
+}
+
+type earlyMsg struct {
+	raw  *interfaces.ConsensusRawMessage
+	info ref.Info
+}
+
+// replayEarly feeds the shadow the messages that were delivered before the node reached this height (the
+// code keeps them in its future cache and hands them to the new term).
+func (n *LNode) replayEarly(height uint64) {
+	var keep []earlyMsg
+	seed := n.seed
+	if t := n.V.Term(); t != nil {
+		seed = t.VerifRandomSeed()
+	}
+	for _, m := range n.early {
+		if m.info.Hdr.Height == height {
+			shareOK := m.info.Kind == ref.KC && bytes.Equal(m.info.Share, kit.Share([]byte(m.info.Sender.ID), primitives.BlockHeight(height), randomseed.RandomSeedToBytes(seed)))
+			hash := m.info.Hdr.Hash
+			if m.info.Kind == ref.KNV {
+				hash = m.info.PP.Hash
+			}
+			n.Sh.OnDeliver(m.info, shareOK, n.wouldApprove(m.raw, hash))
+		} else if m.info.Hdr.Height > height {
+			keep = append(keep, m)
+		}
+	}
+	n.early = keep
 }
